@@ -11,7 +11,8 @@
 (*               the harness's own encoder on the decoded value), get (getters agree with the       *)
 (*               decoded value), z244 (own ZIP 244 txid of the decoded effects = pczt_txid), sigok   *)
 (*               (every partial signature verifies under the own ZIP 244 signature digest);         *)
-(*               nin / nss: transparent inputs / inputs that carry a script_sig                     *)
+(*               nin / nss: transparent inputs / inputs that carry a script_sig; mlens: stripped     *)
+(*               lengths of the memos carried in plaintext form                                     *)
 (*   ch    the slot classes that differ between pre and post, with direction add / del / mod        *)
 EXTENDS Naturals, Sequences, FiniteSets, TLC, Json, IOUtils, PcztFrames
 
@@ -32,6 +33,7 @@ ProjOK(p) ==
     /\ p.enc = Encoding(p)                          \* the older encoding whenever it can represent the content
     /\ p.rt /\ p.own /\ p.get                       \* serialise / parse are inverse, canonical, and what the getters show
     /\ p.sigok                                      \* signatures are over the sighash of Effects
+    /\ \A i \in 1 .. Len(p.mlens) : StrippedMemoLenOK(p.mlens[i])   \* memo plaintexts of every legal length
     /\ L!FlagsValid(p.flags)
 
 \* a successful role application on copy r.cp
